@@ -463,7 +463,7 @@ class _Ctx(object):
         self.outcomes[label] = self.outcomes.get(label, 0) + 1
 
     def bad(self, key, msg, sub=None):
-        if len(self.viol) < 8 or key not in [v['key'] for v in self.viol]:
+        if key not in [v['key'] for v in self.viol]:
             self.viol.append({'key': key, 'msg': msg, 'sub': sub})
 
     def path(self):
@@ -482,7 +482,7 @@ class _Ctx(object):
                 'maxerr': {'6-digit': self.maxerr}, 'extra': {'programs': self.programs}}
 
 
-def _roundtrip(ctx, lp, K, sub, exact, hasmat=False):
+def _roundtrip(ctx, lp, K, sub, exact, hasmat=False, report_zero_column=False):
     """One round trip of `lp`; K = key prefix."""
     from mc.ref import lpexact
     ctx.n += 1
@@ -510,10 +510,12 @@ def _roundtrip(ctx, lp, K, sub, exact, hasmat=False):
             ctx.out('a:rejected:violated-empty-row')
             return
         if isinstance(e, ValueError) and 'unknown column label' in msg and zc:
+            ctx.out('a:zero-column')
+            if not report_zero_column:
+                return              # reported once, by the dedicated cases of family 'z' (keeps the evidence exhaustive)
             ctx.bad('C14:roundtrip:zero-column:fromfile-ValueError',
                     'variable component %r has only zero coefficients: tofile writes its FR bound but no COLUMNS entry and '
                     'fromfile rejects the file: %s' % (M1['labels'][zc[0]][:3], msg), sub)
-            ctx.out('a:zero-column')
             return
         ctx.bad(K + ':fromfile-exception:%s' % type(e).__name__,
                 'fromfile raised %r on the file written by tofile' % (e,), dict(sub or {}, file=open(path).read()[:1500]))
@@ -693,6 +695,7 @@ def _cases_b(tier, seed):
     for style in (0, 1, 2):
         yield {'fam': 'b', 'sub': 'comments', 'style': style}
     yield {'fam': 'b', 'sub': 'range-on-N', 'style': seed % 3}
+    yield {'fam': 'b', 'sub': 'second-N', 'style': seed % 3}
 
 
 def _mps_text(rows, cols, entries, rhs, ranges, bounds, style=0, layout='one', name='TESTPROB', sections='auto'):
@@ -948,12 +951,27 @@ def _run_b(case, ctx):
                 lines = _mps_text(rows, present, entries, rhs, [], [], style=style, layout=layout)
                 _check_text(ctx, lines, 'C14:fromfile:columns:%s' % layout, {'pattern': pat, 'layout': layout},
                             nontrivial=layout != 'one')
-            # the same with a second free row that has entries wherever the objective has
-            if pat % 4 == 1:
-                rows2 = rows + [('FREE', 'N')]
-                e2 = {c: es + [('FREE', 7.0)] for c, es in entries.items()}
-                lines = _mps_text(rows2, present, e2, rhs, [], [], style=style, layout='two')
-                _check_text(ctx, lines, 'C14:fromfile:columns:second-N', {'pattern': pat}, second_n_entries=True)
+        return
+    if sub == 'second-N':
+        # a second free row WITH entries (COLUMNS in first / second position of a line, RHS)
+        for m in (1, 2):
+            labs = ROWLABELS[:m]
+            for n in (1, 2):
+                cols = COLLABELS[:n]
+                for fpos in (0, 1, 2):
+                    for where in ('columns-first', 'columns-second', 'rhs'):
+                        rows = [('COST', 'N')] + [(labs[i], 'LG'[i]) for i in range(m)]
+                        rows.insert(1 + fpos % (m + 1), ('FREE', 'N'))
+                        entries = {c: [('COST', 1.0 + j)] + [(l, COEF[i + j]) for i, l in enumerate(labs)] for j, c in enumerate(cols)}
+                        rhs = [(labs[i], 3.0) for i in range(m)]
+                        if where == 'columns-first':
+                            entries[cols[-1]] = [('FREE', 7.0)] + entries[cols[-1]]
+                        elif where == 'columns-second':
+                            entries[cols[0]] = entries[cols[0]][:1] + [('FREE', 7.0)] + entries[cols[0]][1:]
+                        else:
+                            rhs.append(('FREE', 2.0))
+                        lines = _mps_text(rows, cols, entries, rhs, [], [], style=style, layout='two')
+                        _check_text(ctx, lines, 'C14:fromfile:second-N', {'where': where, 'm': m, 'n': n}, second_n_entries=True)
         return
     if sub == 'comments':
         rows = [('R1', 'L'), ('COST', 'N'), ('LIM2', 'G'), ('ROW00003', 'E')]
@@ -1074,11 +1092,43 @@ def _run_d(case, ctx):
         _roundtrip(ctx, lp, 'C14:roundtrip:long-names-shared-prefix:%s' % case['what'], {'names': [n1, n2]}, True)
 
 
+# ---------------------------------------------------------------------------------------------- (z) zero columns
+def _cases_z():
+    yield {'fam': 'z'}
+
+
+def _run_z(case, ctx):
+    """LPs in which one component of a vector variable has no nonzero coefficient anywhere."""
+    from cvxopt import matrix, sparse
+    from cvxopt.modeling import variable, op, sum as msum
+    for n in (2, 3):
+        for named in (False, True):
+            for kind in ('index', 'matrix-zero-column', 'sparse-zero-column', 'row'):
+                x = variable(n, 'x' if named else '')
+                if kind == 'index':
+                    lp = op(x[0], [x[0] >= -1])
+                else:
+                    A = matrix(1.0, (2, n))
+                    A[1, 0] = -1.0
+                    A[:, n - 1] = 0.0
+                    c = matrix(1.0, (1, n))
+                    c[n - 1] = 0.0
+                    if kind == 'sparse-zero-column':
+                        A = sparse(A)
+                    if kind == 'row':
+                        A = A[0, :]
+                    lp = op(c * x, [A * x <= 3, A * x >= -2])
+                _roundtrip(ctx, lp, 'C14:roundtrip:zero-column-family', {'kind': kind, 'n': n, 'named': named}, True,
+                           report_zero_column=True)
+
+
 # ---------------------------------------------------------------------------------------------- driver
 def cases(tier, seed, flavour):
     for c in _cases_c():
         yield c
     for c in _cases_d():
+        yield c
+    for c in _cases_z():
         yield c
     for c in _cases_b(tier, seed):
         yield c
@@ -1097,7 +1147,7 @@ def run(case):
     ctx = _Ctx()
     try:
         try:
-            {'a': _run_a, 'b': _run_b, 'c': _run_c, 'd': _run_d}[case['fam']](case, ctx)
+            {'a': _run_a, 'b': _run_b, 'c': _run_c, 'd': _run_d, 'z': _run_z}[case['fam']](case, ctx)
         except Exception as e:
             import traceback
             ctx.bad('C14:harness:exception:%s' % type(e).__name__, traceback.format_exc()[-1500:])
